@@ -1,8 +1,9 @@
 """Decision table for `EyeballSet::process_all` (C10.1 / C10.2 / C10.4 / C10.7 / C11.2): trace equivalence with the specification.
 
-The async body - every crate-local helper spliced in, awaits of crate-local async fns spliced in, `join_next` and
-`join_next_with_timeout` kept opaque - is evaluated abstractly for every small scenario (n queued candidates, initial
-concurrency None / Some(k)).  The queue and the task set are sequences of tagged candidates (seqmodel.py); awaiting
+The async body - every crate-local helper spliced in, awaits of crate-local async fns spliced in (the stagger-wait helper
+included, whatever its interface), only `join_next` kept opaque (its contract is a table of its own, below) and
+`tokio::time::timeout(d, fut)` given its meaning (the outcomes of `fut` as Ok(..), or Err(elapsed)) - is evaluated abstractly
+for every small scenario (n queued candidates, initial concurrency None / Some(k), stagger delay Some(D) / None).  The queue and the task set are sequences of tagged candidates (seqmodel.py); awaiting
 `join_next*` is a nondeterministic step with exactly the outcomes the contract of `join_next` allows for the current task
 set (some running task succeeds / some running task fails - the first failure is remembered / the stagger delay elapses /
 nothing is running).  Every start of a candidate and every await is appended to a trace kept in the abstract state.  The
@@ -30,7 +31,7 @@ def full_unit(facts, fn):
         def want(ck, raw):
             if "::_::" in ck:
                 return False
-            return not re.search(r"EyeballSet::(join_next|join_next_with_timeout)(::\{closure#0\})?$", norm(ck))
+            return not re.search(r"EyeballSet::join_next(::\{closure#0\})?$", norm(ck))
         facts._full_units[key] = inline.inline(facts, fn, 4, want, expand=True)
     return facts._full_units[key]
 
@@ -61,9 +62,16 @@ def o_tasks_push(ev, st, t, site):
 
 
 def o_join(ev, st, t, site):
-    """`self.join_next()` / `self.join_next_with_timeout()`: the future, not yet awaited."""
-    kind = "JT" if norm(site.name).endswith("join_next_with_timeout") else "JJ"
-    return _set_dest(st, t, ("const", kind))
+    """`self.join_next()`: the future, not yet awaited."""
+    return _set_dest(st, t, ("const", "JJ"))
+
+
+def o_timeout(ev, st, t, site):
+    """`tokio::time::timeout(d, fut)`: the future, not yet awaited, remembers its bound."""
+    d, fut = _deref(st, _arg(ev, st, t, 0)), _deref(st, _arg(ev, st, t, 1))
+    if d is None or fut is None:
+        return False
+    return _set_dest(st, t, ("variant", "TimeoutFut", ((0, d), (1, fut))))
 
 
 def o_identity(ev, st, t, site):
@@ -85,11 +93,19 @@ def _set_error(st, tag):
 
 
 def o_poll(ev, st, t, site):
-    """Polling the future of join_next*: one nondeterministic step of the task set (never Pending: waiting is not an event)."""
+    """Polling the future of join_next, bare or under `tokio::time::timeout`: one nondeterministic step of the task set (never
+    Pending: waiting is not an event).  Under a timeout the outcomes arrive as Ok(..) and the bound can elapse: Err(ELAPSED);
+    the events of such a step are `t:..` when the bound is the set's stagger delay (`t[<bound>]:..` otherwise)."""
     v = _deref(st, _arg(ev, st, t, 0))
-    if v is None or v[0] != "const" or v[1] not in ("JT", "JJ"):
+    wrapped = v is not None and v[0] == "variant" and v[1] == "TimeoutFut"
+    if wrapped:
+        f_ = dict(v[2])
+        bound, v = f_.get(0), _deref(st, f_.get(1))
+    if v is None or v[0] != "const" or v[1] != "JJ":
         return False
-    k = "t" if v[1] == "JT" else "j"
+    k = "j"
+    if wrapped:
+        k = "t" if bound == ("const", "DELAY") else "t[%s]" % _show(bound)
     _, tasks = _list_of(st, ("seq", TASKS))
     alts = []
 
@@ -99,12 +115,13 @@ def o_poll(ev, st, t, site):
             mutate(s2)
         _event(s2, "%s:%s" % (k, event))
         d = t["dest"]
+        if wrapped:
+            payload = ("variant", "Ok", ((0, payload),)) if payload is not None else ("variant", "Err", ((0, ("const", "ELAPSED")),))
         s2[d["l"]] = ("variant", "Ready", ((0, payload),))
         alts.append(s2)
     if not tasks:
         alt("Exhausted", ("variant", "Exhausted", ()))
-        return alts
-    for i, task in enumerate(tasks):
+    for i, task in enumerate(tasks or []):
         tag = _tag(task)
         rest = tuple(tasks[:i] + tasks[i + 1:])
 
@@ -116,8 +133,8 @@ def o_poll(ev, st, t, site):
             _set_error(s2, tag)
         alt("Ok:" + tag, ("variant", "Ok", ((0, ("const", "out:" + tag)),)), done)
         alt("Error:" + tag, ("variant", "Error", ()), failed)
-    if k == "t":
-        alt("Timeout", ("variant", "Timeout", ((0, ("const", "ELAPSED")),)))
+    if wrapped and tasks:
+        alt("Timeout", None)
     return alts
 
 
@@ -219,7 +236,8 @@ def o_funord_new(ev, st, t, site):
 
 EXTRA_RAW = [
     (r"FuturesUnordered.*::push$", o_tasks_push),
-    (r"EyeballSet::join_next(_with_timeout)?$", o_join),
+    (r"EyeballSet::join_next$", o_join),
+    (r"tokio::time::timeout$|tokio::time::timeout::timeout$", o_timeout),
     (r"IntoFuture.*::into_future$|Pin.*::new_unchecked$|Pin.*::new$|Pin.*::as_mut$", o_identity),
     (r"Future.*::poll$", o_poll),
     (r"Option.*::take$|mem::take$", o_take),
@@ -272,8 +290,9 @@ def field_index(facts, pred):
     return None
 
 
-def evaluate(facts, n, conc):
-    """Set of (trace, result) of the code for n queued candidates and initial concurrency `conc` (None or an int)."""
+def evaluate(facts, n, conc, delay=True):
+    """Set of (trace, result) of the code for n queued candidates, initial concurrency `conc` (None or an int) and a stagger
+    delay configured (Some(DELAY)) or not."""
     f = full_unit(facts, facts.fn(PA))
     adt = facts.adt("happy_eyeballs::EyeballSet")
     fl = adt["variants"][0]["fields"]
@@ -290,6 +309,10 @@ def evaluate(facts, n, conc):
     fields[ti[0]] = ("seq", TASKS)
     fields[ei[0]] = NONE
     fields[ci[0]] = NONE if conc is None else some(("const", str(conc)))
+    di = [i for i, x in enumerate(fl) if x["name"] == "delay" and re.search(r"Option<.*Duration>", x["ty"])]
+    if len(di) != 1:
+        raise KeyError("EyeballSet has no field `delay: Option<Duration>`")
+    fields[di[0]] = some(("const", "DELAY")) if delay else NONE
     this = ("variant", "EyeballSet", tuple(sorted(fields.items())))
     cap = facts._capture_index(facts.fn(PA), "cap:self")
     env = ("variant", "{coroutine}", ((cap if cap is not None else 0, ("refmut", SELF)),))
@@ -317,8 +340,10 @@ def _show(v):
     return str(v)
 
 
-def spec(n, conc):
-    """The specification: the set of (trace, result) allowed for n candidates and initial concurrency conc."""
+def spec(n, conc, delay=True):
+    """The specification: the set of (trace, result) allowed for n candidates and initial concurrency conc; a stagger wait is
+    bounded by the delay when one is configured (`t:` steps, which can time out) and a plain wait otherwise (`j:` steps)."""
+    SK = "t" if delay else "j"
     res = set()
     cands = ["v4#%d" % i for i in range(n)]
     k = n if conc is None else min(conc, n)
@@ -341,7 +366,7 @@ def spec(n, conc):
         if not queue:
             return drain(tasks, error, trace)
         cand, rest = queue[0], queue[1:]
-        for (ev, kind, tg, after) in steps("t", tasks):
+        for (ev, kind, tg, after) in steps(SK, tasks):
             tr = trace + (ev,)
             if kind == "Ok":
                 res.add((tr, "Ok(out:%s)" % tg))
@@ -362,28 +387,28 @@ def spec(n, conc):
     return res
 
 
-SCENARIOS = [(n, c) for n in range(0, 4) for c in (None, 0, 1, 2, 5)]
+SCENARIOS = [(n, c, True) for n in range(0, 4) for c in (None, 0, 1, 2, 5)] + [(n, c, False) for n in range(0, 4) for c in (None, 1)]
 
 
 def table(ctx, facts, label="process_all", only=None):
     rows = 0
-    scenarios = [(n, c) for (n, c) in SCENARIOS if only is None or only(n, c)]
+    scenarios = [(n, c, d) for (n, c, d) in SCENARIOS if only is None or only(n, c)]
     ctx.touched(full_unit(facts, facts.fn(PA)))
-    for (n, c) in scenarios:
-        key = "%s|trace-table|n=%d,concurrency=%s" % (label, n, "None" if c is None else c)
+    for (n, c, d) in scenarios:
+        key = "%s|trace-table|n=%d,concurrency=%s%s" % (label, n, "None" if c is None else c, "" if d else ",delay=None")
         if not hasattr(facts, "_pa_table"):
             facts._pa_table = {}
-        if (n, c) not in facts._pa_table:
+        if (n, c, d) not in facts._pa_table:
             try:
-                facts._pa_table[(n, c)] = evaluate(facts, n, c)
+                facts._pa_table[(n, c, d)] = evaluate(facts, n, c, d)
             except AbsPaths.Undecided as e:
-                facts._pa_table[(n, c)] = e
-        got = facts._pa_table[(n, c)]
+                facts._pa_table[(n, c, d)] = e
+        got = facts._pa_table[(n, c, d)]
         if isinstance(got, Exception):
             ctx.undecided(key, str(got))
             continue
         rows += 1
-        want = spec(n, c)
+        want = spec(n, c, d)
         extra = sorted(got - want, key=repr)
         lost = sorted(want - got, key=repr)
         why = ""
@@ -392,10 +417,10 @@ def table(ctx, facts, label="process_all", only=None):
         if lost:
             why += "the specification requires %s -> %s, which the code cannot do; " % (list(lost[0][0]), lost[0][1])
         ctx.check(not extra and not lost, key,
-                  "%d candidates, initial concurrency %s: the %d (trace, result) pairs of the code are exactly those of the specification "
-                  "(batch in order, one stagger wait per further start, first success returned at once and unchanged, failure only when exhausted, first error or NoProgress)"
-                  % (n, c, len(want)),
-                  "%d candidates, initial concurrency %s: %s(%d unexpected, %d missing of %d)" % (n, c, why, len(extra), len(lost), len(want)))
+                  "%d candidates, initial concurrency %s, stagger delay %s: the %d (trace, result) pairs of the code are exactly those of the specification "
+                  "(batch in order, one stagger wait - bounded by the delay when there is one - per further start, first success returned at once and unchanged, failure only when exhausted, first error or NoProgress)"
+                  % (n, c, "DELAY" if d else "none", len(want)),
+                  "%d candidates, initial concurrency %s, stagger delay %s: %s(%d unexpected, %d missing of %d)" % (n, c, "DELAY" if d else "none", why, len(extra), len(lost), len(want)))
     ctx.floor("%s|trace-table-rows" % label, rows, len(scenarios), "scenarios evaluated")
 
 
